@@ -29,6 +29,7 @@ func runC10(c *Ctx) {
 	ruleNoStrayGoroutine(c, p, roles, "C10.no-stray-goroutine")
 	ruleWritesUnderWatch(c, p, roles, "C10.write-watched")
 	ruleTimeoutSource(c, p, "C10.timeout-source")
+	ruleDialClose(c, p, "C10.dialclose")
 	ruleNoLeak(c, p, roles, "C10.leak")
 	ruleHandshakeWatchdog(c, p)
 	rulePacketDeadline(c, p, "C10.deadline")
